@@ -1065,7 +1065,9 @@ func predDecode(B []*big.Int) {
 
 func predFloats() {
 	v5 := primitive.ProtocolVersion5
-	same := func(a, b float64) bool { return a == b && math.Signbit(a) == math.Signbit(b) || (math.IsNaN(a) && math.IsNaN(b)) }
+	same := func(a, b float64) bool {
+		return a == b && math.Signbit(a) == math.Signbit(b) || (math.IsNaN(a) && math.IsNaN(b))
+	}
 	fs := append([]float64{}, f64Samples...)
 	fs = append(fs, f32Edge...)
 	for i := 0; i < 200*deepFactor; i++ {
